@@ -520,7 +520,7 @@ class CallMixin:
         for n in names:
             srt = c.params[n]
             if srt is not None:
-                env[n] = coerce(env[n], srt)
+                env[n] = coerce(self.narrow_deep(st, env[n], srt), srt)
         st = st.copy()
         caller_env = st.env
         # preconditions are proof obligations of the caller
